@@ -160,5 +160,12 @@ def cli_pre(ctx):
 
 def run(ctx):
     core.run(ctx, SPEC)
+    # the frame with hundreds of loaded bars once through `pre -w` under Go's race detector (supporting evidence: bars are sliced at the
+    # same time; whether a buffer shared between two of them shows in the positions is the scheduler's call)
+    import subprocess
+    from .. import cli
+    from . import C08
+    big = subprocess.run([cli.BIN, "generate", "--type", "retic", "--spans", "20", "--levels", "10"], stdout=subprocess.PIPE, text=True).stdout
+    ctx.coverage["race_detector_runs"] = C08.race_on(ctx, ["pre", "-w", "x.inkfem"], {"x.inkfem": big}, "a 20 x 10 frame (200 loaded beams)")
     n = cli_pre(ctx)
     ctx.coverage["pre_command_runs"] = n
